@@ -252,6 +252,7 @@ func checkC06(r *Run) propMeta {
 	}
 	r.Floor("C06-R5-alias-after-frame-rewrite", 1)
 	checkShapeAliasCollisions(r, tp)
+	checkConsistentResultBinding(r, tp, r.MustPkg("cypher/models/pgsql/optimize"))
 	r.Floor("C06-R1-alias-namespace", 15)
 	r.Floor("C06-R2-definition-namespace", 8)
 	r.Floor("C06-R3-parameter-deref", 1)
@@ -393,4 +394,89 @@ func checkShapeAliasCollisions(r *Run, tp *packages.Package) {
 		}
 	}
 	r.Note("%s: %d (alias, internal name) pairs examined", rule, n)
+}
+
+// checkConsistentResultBinding (R7): a contradiction rule.  When one function calls the same multi-result helper more than
+// once and binds a variable of the same name to DIFFERENT result positions at two of the call sites, one of the two
+// sites takes the wrong result (helpers such as propertyLookupSymbol return (variable symbol, property key, ok): taking
+// the key where the symbol is meant makes a node count as constrained only if it is spelled like the property it is
+// filtered on — the plan then depends on how the user named a variable).
+func checkConsistentResultBinding(r *Run, pkgs ...*packages.Package) {
+	const rule = "C06-R7-result-binding"
+	n := 0
+	for _, p := range pkgs {
+		info := p.TypesInfo
+		for _, f := range p.Syntax {
+			for _, d := range f.Decls {
+				fd, ok := d.(*ast.FuncDecl)
+				if !ok || fd.Body == nil {
+					continue
+				}
+				// callee -> variable name -> set of result indexes it was bound to (with a position)
+				type bind struct {
+					idx int
+					pos token.Pos
+				}
+				seen := map[*types.Func]map[string][]bind{}
+				ast.Inspect(fd.Body, func(x ast.Node) bool {
+					as, ok := x.(*ast.AssignStmt)
+					if !ok || len(as.Rhs) != 1 || len(as.Lhs) < 2 {
+						return true
+					}
+					call, ok := ast.Unparen(as.Rhs[0]).(*ast.CallExpr)
+					if !ok {
+						return true
+					}
+					callee := calleeOf(info, call)
+					if callee == nil || callee.Pkg() == nil || !strings.HasPrefix(callee.Pkg().Path(), modPath) {
+						return true
+					}
+					sig := callee.Type().(*types.Signature)
+					for i, l := range as.Lhs {
+						id, ok := l.(*ast.Ident)
+						if !ok || id.Name == "_" || id.Name == "ok" || id.Name == "err" || i >= sig.Results().Len() {
+							continue
+						}
+						// only positions whose types are interchangeable with another position can be mixed up
+						interchangeable := false
+						for j := 0; j < sig.Results().Len(); j++ {
+							if j != i && types.Identical(sig.Results().At(j).Type(), sig.Results().At(i).Type()) {
+								interchangeable = true
+							}
+						}
+						if !interchangeable {
+							continue
+						}
+						if seen[callee] == nil {
+							seen[callee] = map[string][]bind{}
+						}
+						seen[callee][id.Name] = append(seen[callee][id.Name], bind{i, as.Pos()})
+					}
+					return true
+				})
+				for callee, byName := range seen {
+					for name, binds := range byName {
+						if len(binds) < 2 {
+							continue
+						}
+						n++
+						construct := shortPkg(p.PkgPath) + "." + funcDeclName(fd) + ":" + callee.Name() + "→" + name
+						first := binds[0]
+						bad := token.NoPos
+						for _, b := range binds[1:] {
+							if b.idx != first.idx {
+								bad = b.pos
+							}
+						}
+						if bad == token.NoPos {
+							r.Pass(rule, construct, first.pos, "%s is bound to result #%d of %s at every call site", name, first.idx, callee.Name())
+						} else {
+							r.Fail(rule, construct, bad, "%s binds %q to result #%d of %s at one call site and to a different result position at another; both have the same type, so the compiler cannot tell — one of the sites reads the wrong result (for propertyLookupSymbol: the property key instead of the variable's symbol)", funcDeclName(fd), name, first.idx, callee.Name())
+						}
+					}
+				}
+			}
+		}
+	}
+	r.Note("%s: %d repeated multi-result bindings examined", rule, n)
 }
